@@ -319,7 +319,7 @@ var names = []string{"Foo", "Foo/size=4k", "Foo/size=4k/kind=a-8", "Bar-16", "Ba
 	"/size=4k-8", "/kind=a", "/", "Foo/size=x=1/kind=a=b-4",
 	// a dash that is not followed by digits belongs to the name
 	"Parse/kind=-", "Trim-", "Foo/kind=a--8", "X/size=-/kind=-", "Foo/size=4k-", "Bar--", "Foo/kind=-8"}
-var cfgKeys = []string{"goos", "pkg", "a", ".file", "note"}
+var cfgKeys = []string{"goos", "pkg", "a", ".file", "note", "cpu/model", "a/size"}
 var cfgVals = []string{"linux", "darwin", "x y", "1", "p/q", "é", "-v", "*", "a:b", "(x)", "AND"}
 var safeRegexps = []string{"^F", "oo$", "4k|1M", "^$", ".", "[a-f]+", "^(linux|darwin)$", "s.c", "B", "^[0-9]+$", "x y", "^ns", "^MB", "ns.op$", "^sec", "^9", "9",
 	// a delimiter inside a class, a group or behind a backslash does not end the expression; an unmatched ']' is an ordinary character
@@ -436,7 +436,14 @@ func Gen(t *rapid.T) Case {
 			return j
 		}
 		leaf := &refexpr.Node{Op: "match", Key: ".unit", Vals: []refexpr.Term{{Lit: "u" + strconv.Itoa(pos("j1"))}}}
-		switch rapid.IntRange(0, 3).Draw(t, "bitform") {
+		switch rapid.IntRange(0, 6).Draw(t, "bitform") {
+		case 4:
+			// a conjunction whose only hits lie in a later mask word
+			c.Tree = &refexpr.Node{Op: "and", Kids: []*refexpr.Node{{Op: "match", Key: ".name", Vals: []refexpr.Term{{Lit: refexprBase(c.Name)}}}, leaf}}
+		case 5:
+			c.Tree = &refexpr.Node{Op: "and", Kids: []*refexpr.Node{leaf, {Op: "true"}}}
+		case 6:
+			c.Tree = &refexpr.Node{Op: "not", Kids: []*refexpr.Node{{Op: "and", Kids: []*refexpr.Node{{Op: "match", Key: ".name", Vals: []refexpr.Term{{Lit: refexprBase(c.Name)}}}, leaf}}}}
 		case 0:
 			c.Tree = leaf
 		case 1:
